@@ -130,7 +130,10 @@ pub fn emit_graph(files: &std::collections::HashMap<&'static str, String>) -> Va
               json!({"name": v["name"], "tys": tys, "edges": edges, "default": is_default})
             })
             .collect();
-          defs.push(json!({"file": fname, "kind": "enum", "name": name, "derives_default": has_default_derive, "variants": variants}));
+          // `#[serde(untagged)]`: variants are tried in declaration order; without it (and with payloads) the enum
+          // has a hand-written, tag-dispatching Deserialize
+          let untagged = it["attrs"].as_array().is_some_and(|a| a.iter().any(|x| x.as_str().is_some_and(|s| s.replace(' ', "") == "serde(untagged)")));
+          defs.push(json!({"file": fname, "kind": "enum", "name": name, "derives_default": has_default_derive, "untagged": untagged, "variants": variants}));
         }
         "type" => {
           *defined.entry(name.clone()).or_default() += 1;
